@@ -105,6 +105,39 @@ def snapshot_filter():
     check(Implies(And(verb in (" I", "RP"), Not(expired), code != "0404"), kept), "a live I/RP is kept")
 
 
+def _slots(ent):
+    return ([(c, v, x) for c, vs in ent._msgz_.items() for v, xs in vs.items() for x in xs], list(ent._msgs_))
+
+
+@harness("C16")
+def storing_the_same_packet_again_changes_nothing():
+    """_MessageDB._handle_msg fed a packet the entity already holds (the same snapshot restored twice,
+    or restored into the gateway it came from): no slot is added or removed, the flattened message
+    list that get_state walks has the same length, and each slot holds the packet just stored."""
+    from ramses_rf import entity_base as EB
+
+    from .c02_frames import sym_dev
+    from .c14_freshness import CTXS, fake_msg
+    me, src, dst = sym_dev("me"), sym_dev("src"), sym_dev("dst")
+    code = sym_choice("code", ["30C9", "2309"])
+    verb = sym_choice("verb", [" I", "RP", "RQ", " W"])
+    ctx = sym_choice("ctx", CTXS)
+    ent = new_object(EB._MessageDB, id=me, _msgs_={}, _msgz_={}, _gwy=FakeZzzGwy())
+    first, again = fake_msg("first", src, dst, code, verb, ctx), fake_msg("again", src, dst, code, verb, ctx)
+    o1 = outcome(ent._handle_msg, first)
+    before, n_before = _slots(ent), len(ent._msg_db)
+    o2 = outcome(ent._handle_msg, again)
+    check(o1.ok and o2.ok, "_handle_msg does not raise")
+    check(_slots(ent) == before, "storing a packet the entity already holds adds and removes no slot")
+    check(len(ent._msg_db) == n_before, "the message list get_state walks keeps its length")
+    if n_before:
+        check(ent._msgz_[code][verb][ctx] is again, "the slot holds the packet stored last")
+
+
+class FakeZzzGwy:
+    _zzz = None
+
+
 # =========================================================================== C17
 @harness("C17", cases=[("zone",), ("dhw",)])
 def switchpoint_roundtrip(kind):
